@@ -62,6 +62,10 @@ Definition check_sites (D H : list N) (cases : list (call * (list N * bool))) : 
 Definition check_inputlookup_guard (cases : list (list N * bool)) : list nat :=
   bad_indices (fun c => Bool.eqb (inputlookup_ok (fst c)) (snd c)) cases O.
 
+(* IsSafePathComponent: (name, was it accepted by the site's validator) *)
+Definition check_safe (cases : list (list N * bool)) : list nat :=
+  bad_indices (fun c => Bool.eqb (safe_component (fst c)) (snd c)) cases O.
+
 (* model self-check, redundant with the theorems: a name the guard accepts is confined *)
 Definition selfcheck_join (D : list N) (names : list (list N)) : list nat :=
   bad_indices (fun n => implb (stays_within 1 n) (confined D (site_lookup_file D n))) names O.
